@@ -25,9 +25,9 @@ type protOpts struct {
 	Wts        []int  `json:"wts"`
 }
 type protEvent struct {
-	T    string     `json:"t"`
-	ID   string     `json:"id"`
-	Rows [][]int    `json:"rows"`
+	T    string  `json:"t"`
+	ID   string  `json:"id"`
+	Rows [][]int `json:"rows"`
 	protOpts
 	Kind string     `json:"kind"`
 	Msg  string     `json:"msg"`
